@@ -419,6 +419,12 @@ impl Tree {
 		Ok(out)
 	}
 
+	/// Whether the active-memtable lock could be taken for reading right now (a
+	/// harness probe must not read while a parked thread holds it for writing).
+	pub fn verif_active_memtable_readable(&self) -> bool {
+		self.core.inner.active_memtable.try_read().is_ok()
+	}
+
 	pub fn verif_stall_counts(&self) -> (usize, usize) {
 		(self.core.inner.immutable_count(), self.core.inner.l0_file_count())
 	}
